@@ -207,6 +207,21 @@ CHECKS = {
              "float64 quantities); the specification contributes the bookkeeping that makes them meaningful. Tiny flows, "
              "2-4 parameter models, <=6 levels.",
     ),
+    "C14": dict(
+        category="model_checking",
+        technique="TLA+ self-composition Determinism.tla (two runs in lock-step, every chunking of every batch) and "
+                  "BatchEval.tla model checked by TLC; pairs of real runs compared event by event by TLC "
+                  "(TraceDeterminism.tla)",
+        text="The 2-safety property is checked on the model for every way the two runs may split their batches (and "
+             "refuted for a variant where the split leaks into the random stream); real runs of both samplers with the "
+             "same seed - in another process, twice in one process, with pool sizes 1-3, a user-supplied pool, chunk "
+             "sizes 1/7/huge, parallel prior - are compared with the base run at every iteration boundary (digests of "
+             "samples, live points, integrator, evaluation counter, numpy/torch generator state) and on the final "
+             "digests; the first differing event localises a divergence.",
+        design_ref="DESIGN.md 4 C14",
+        note="Likelihood built from exactly rounded operations (vectorised == pointwise bitwise); worker scheduling of "
+             "real pools is exercised, not enumerated; Pool.map order preservation assumed.",
+    ),
 }
 
 NOT_YET = {k: 'check not built yet (work in progress; see DESIGN.md 8 for the order of work)' for k in ['C01', 'C02', 'C03', 'C05', 'C09', 'C10', 'C11', 'C12', 'C13', 'C14', 'C15', 'C16', 'C17', 'C18', 'C19', 'C20']}
